@@ -5,8 +5,19 @@
    werkzeug.debug on every run; specifications (host_part, names, spec_trusted, is_fail,
    is_right, count_fail) are in C20/Proofs.v. *)
 From Coq Require Import ZArith.
-From Wz Require Import lib.Bytes C20.Types C20.Gen C20.Model C20.Proofs.
+From Wz Require Import lib.Bytes C20.Types C20.Str C20.Gen C20.Model C20.Proofs.
 Open Scope N_scope.
+
+(* What is an input of the model and not modelled:
+   - hash_pin (sha1 of the PIN text plus a salt, first 12 hex digits): c_pin_hash cfg stands for
+     hash_pin(self.pin); check_pin_trust compares the text after the first bar of the cookie with it
+     by equality (atom p_hash_eq).  That sha1 is hard to invert or collide is not claimed; the source
+     expression of hash_pin is pinned by the translator and its value is recomputed with hashlib by the
+     harness.
+   - parse_cookie (C13): q_cookie q is the value it returns for the PIN cookie name.
+   - the per-process secret (gen_salt) and the PIN derivation (get_pin_and_cookie_name): c_secret, c_pin.
+   - str.encode(idna) on non-ASCII text: the parameter idna_u, with the stated contract where needed.
+   - time.time(): q_now q (whole seconds). *)
 
 (* ---------------------------------------------------------------- C20_gate *)
 
@@ -73,6 +84,25 @@ Theorem C20_gate_untrusted_concrete : forall idna_u cfg q count o c s,
 Proof. exact untrusted_concrete. Qed.
 Print Assumptions C20_gate_untrusted_concrete.
 
+(* evaluation in the console frame (frames[0]).  The frames table is state: display_console adds frame
+   0 when it answers, a traceback adds the ids of its frames (ar_new_frames, never 0: id() of an
+   object).  For EVERY history of requests from a state without frame 0: if a request naming frame 0
+   is evaluated, the console page was served earlier in the history, to a trusted Host, with evalex. *)
+Theorem C20_console_frame : forall h s q,
+  ~ In 0%Z (d_frames s) -> (forall x, In x h -> ~ In 0%Z (ar_new_frames x)) ->
+  ar_frm q = Some 0%Z -> fst (astep (arun s h) q) = OEval ->
+  exists pre q' post, h = pre ++ q' :: post /\
+    exists t, fst (astep (arun s pre) q') = OConsole t /\
+              a_host_trusted (ar_atoms q') = true /\ a_evalex (ar_atoms q') = true.
+Proof. exact console_eval_needs_page. Qed.
+Print Assumptions C20_console_frame.
+
+Example C20_console_frame_example :
+  fst (astep (arun st0 [ex_console_page]) ex_eval_frame0) = OEval /\
+  fst (astep (arun st0 []) ex_eval_frame0) = OApp.
+Proof. vm_compute. split; reflexivity. Qed.
+Print Assumptions C20_console_frame_example.
+
 (* ---------------------------------------------------------------- C20_lockout *)
 
 (* for EVERY history of requests of any kind (pre ++ w ++ post, from any counter value): if the
@@ -123,10 +153,36 @@ Print Assumptions C20_lockout_wrapping_increment_refuted.
 
 (* ---------------------------------------------------------------- C20_host *)
 
+(* strip_port, host_is_trusted, get_host, request_host and wsgi_get_host are GENERATED (Gen.v) from
+   the bodies of sansio.utils._strip_port / host_is_trusted / get_host, sansio.request.Request.host
+   and wsgi.get_host: branch conditions, the order port strip -> IDNA -> comparison, the exception
+   class of each handler, the None / list handling.  They are proved equal to the reference reading
+   of Model.v, so a reordered or dropped step in the source breaks this theorem. *)
+Theorem C20_generated_host_functions : forall idna_u,
+  (forall h, strip_port h = strip_port_ref h) /\
+  (forall h l, host_is_trusted idna_u h l = host_is_trusted_ref idna_u h l) /\
+  (forall scheme hh server tr, get_host idna_u scheme hh server tr = get_host_ref idna_u scheme hh server tr).
+Proof. exact (fun u => conj strip_port_eq (conj (host_is_trusted_eq u) (get_host_eq u))). Qed.
+Print Assumptions C20_generated_host_functions.
+
+(* request-level enforcement (sansio.request.Request.host; wsgi.get_host is the same function of its
+   arguments): with trusted_hosts = None there is no validation; with a list - the empty list
+   included, which therefore refuses every host - the assembled host is returned exactly when
+   host_is_trusted is true, and the failure is SecurityError otherwise. *)
+Theorem C20_request_host : forall idna_u scheme hh server,
+  let h := assemble scheme hh server in
+  request_host idna_u scheme hh server None = Ok h /\
+  (forall l, exists b, host_is_trusted idna_u (Some h) l = Ok b /\
+     request_host idna_u scheme hh server (Some l) = if b then Ok h else Err SecurityError) /\
+  request_host idna_u scheme hh server (Some []) = Err SecurityError /\
+  (forall tr, wsgi_get_host idna_u scheme hh server tr = request_host idna_u scheme hh server tr).
+Proof. exact request_host_spec. Qed.
+Print Assumptions C20_request_host.
+
 (* strip_port computes the host part: port removed after the first colon, or after the closing
    bracket of an IPv6 literal *)
 Theorem C20_host_part : forall h, host_part h (strip_port h).
-Proof. exact strip_port_part. Qed.
+Proof. exact strip_port_part_gen. Qed.
 Print Assumptions C20_host_part.
 
 (* host_is_trusted h l = true implies: the port-stripped, IDNA-encoded host equals the name of a
@@ -139,7 +195,7 @@ Theorem C20_host : forall idna_u,
     ((starts_with [DOT] ref = false /\ names idna_u ref hn)
      \/ (exists ref' rn, ref = DOT :: ref' /\ names idna_u ref' rn /\
            (hn = rn \/ exists sub, sub <> [] /\ hn = sub ++ DOT :: rn))).
-Proof. exact host_sound. Qed.
+Proof. exact host_sound_gen. Qed.
 Print Assumptions C20_host.
 
 (* with the default list: localhost, a true subdomain of it, or 127.0.0.1 - never a look-alike *)
@@ -148,7 +204,7 @@ Theorem C20_host_default : forall idna_u,
   forall h, host_is_trusted idna_u (Some h) default_trusted_hosts = Ok true ->
   exists hn, names idna_u h hn /\
     (hn = s_localhost \/ (exists sub, sub <> [] /\ hn = sub ++ DOT :: s_localhost) \/ hn = s_loopback).
-Proof. exact default_list_sound. Qed.
+Proof. exact default_list_sound_gen. Qed.
 Print Assumptions C20_host_default.
 
 Example C20_host_examples :
@@ -168,11 +224,11 @@ Theorem C20_host_errors : forall idna_u,
   (forall h l, exists b, host_is_trusted idna_u h l = Ok b) /\
   (forall l, host_is_trusted idna_u None l = Ok false) /\
   (forall scheme hh server tr e, get_host idna_u scheme hh server tr = Err e -> e = SecurityError).
-Proof. exact (fun u => conj (host_total u) (conj (host_absent u) (get_host_errors u))). Qed.
+Proof. exact (fun u => conj (host_total_gen u) (conj (host_absent_gen u) (get_host_errors_gen u))). Qed.
 Print Assumptions C20_host_errors.
 
 Theorem C20_get_host_trusted : forall idna_u,
   (forall s o, idna_u s = Some o -> ascii_labels_ok o 0 = true) ->
   forall scheme hh server l v, get_host idna_u scheme hh server (Some l) = Ok v -> spec_trusted idna_u v l.
-Proof. exact get_host_trusted. Qed.
+Proof. exact get_host_trusted_gen. Qed.
 Print Assumptions C20_get_host_trusted.
